@@ -603,11 +603,27 @@ func (p *Prov) atomsAt(b *ssa.BasicBlock) []Atom {
 	var out []Atom
 	hdr := loopHeaders(b.Parent())
 	for _, f := range allFacts(b) {
+		if ph, ok := f.Cond.(*ssa.Phi); ok && len(phiDisjunction(ph, f.Pol)) >= 1 {
+			continue // represented by its decomposition (conjunctive facts or the disjunctive atom below)
+		}
 		a := p.atomOf(f.Cond, f.Pol)
 		if a.Kind == "len" && f.If != nil && hdr[f.If.Block()] {
 			continue // the exit test of a range loop: says only that the loop has finished
 		}
 		out = append(out, a)
+	}
+	// a boolean phi built by an || chain (`ok := a || b || c; if ok {`): its truth is the
+	// disjunction of the conditions under which each edge delivers true
+	for _, f := range allFacts(b) {
+		if ph, ok := f.Cond.(*ssa.Phi); ok {
+			if fs := phiDisjunction(ph, f.Pol); len(fs) >= 2 {
+				a := Atom{Kind: "or", Pol: true}
+				for _, x := range fs {
+					a.Or = append(a.Or, p.atomOf(x.Cond, x.Pol))
+				}
+				out = append(out, a)
+			}
+		}
 	}
 	for _, d := range disjunctiveJoins(b) {
 		a := Atom{Kind: "or", Pol: true}
@@ -615,6 +631,32 @@ func (p *Prov) atomsAt(b *ssa.BasicBlock) []Atom {
 			a.Or = append(a.Or, p.atomOf(f.Cond, f.Pol))
 		}
 		out = append(out, a)
+	}
+	return out
+}
+
+// phiDisjunction: for a boolean phi and a required value, the alternative facts (one
+// per edge that can deliver that value): the branch that led to a constant edge, or
+// the edge value itself. Returns nil when some edge cannot be described.
+func phiDisjunction(ph *ssa.Phi, want bool) []Fact {
+	if !isBoolType(ph.Type()) {
+		return nil
+	}
+	var out []Fact
+	for i, e := range ph.Edges {
+		pred := ph.Block().Preds[i]
+		if cb, isC := constBool(e); isC {
+			if cb != want {
+				continue
+			}
+			ifi, ok := pred.Instrs[len(pred.Instrs)-1].(*ssa.If)
+			if !ok || pred.Succs[0] == pred.Succs[1] {
+				return nil
+			}
+			out = append(out, Fact{ifi.Cond, pred.Succs[0] == ph.Block(), ifi})
+			continue
+		}
+		out = append(out, Fact{e, want, nil})
 	}
 	return out
 }
